@@ -88,6 +88,7 @@ def parseFate (s : String) : Fate :=
   | ["fail", k] => .fail (nat! k)
   | ["kill", k] => .kill (nat! k)
   | ["cancel", k] => .cancel (nat! k)
+  | ["rfail"] => .failRename
   | _ => .ok
 
 def parseList (s : String) : List String :=
@@ -290,7 +291,7 @@ def simRound (ws : List String) : List String := Id.run do
     sim := drain cfg sim (early ++ latePids ++ cwPids)
   let all := early ++ latePids ++ cwPids
   let count (o : String) : Nat := (all.filter fun p => (outcomeOf sim p).startsWith o).length
-  out := out ++ [s!"outcomes created={count "created"} existing={count "existing"} err={count "err"} killed={count "killed"} cancelled={count "cancelled"}"]
+  out := out ++ [s!"outcomes created={count "created"} existing={count "existing"} err={count "err"} killed={count "killed"} cancelled={count "cancelled"} err_rename={count "err:rename"}"]
   if count "stuck" + count "dead" > 0 then out := out ++ ["stuck creators"]
   out := out ++ [s!"writes_ok={sim.writesOk}", s!"max_active={sim.maxActive}",
                  s!"observations bad={sim.bad}",
@@ -479,7 +480,8 @@ def judgeRound (ws impl : List String) : Bool × String :=
     else if dest ≠ "absent" ∧ dest ≠ "complete" then (false, s!"final destination is {dest}: neither absent nor one writer's complete payload")
     else if total ≠ n then (false, s!"{total} outcomes for {n} creators")
     else if created > 1 then (false, s!"{created} creators report having created the file")
-    else if kvNat w "writes_ok" 99 > 1 then (false, s!"the contents were written successfully {kvNat w "writes_ok" 99} times")
+    -- a write whose rename failed afterwards is a failed attempt: it does not count (C16_written_at_most_once)
+    else if kvNat w "writes_ok" 99 > 1 + kvNat o "err_rename" 0 then (false, s!"the contents were written successfully {kvNat w "writes_ok" 99} times ({kvNat o "err_rename" 0} of them lost to a failed rename)")
     else if created + existing > 0 ∧ dest ≠ "complete" then (false, "a creator returned success but the destination is not complete")
     else if ¬ impl.contains "seen ok" then (false, "a creator that returned success did not see the complete file")
     else if (kv r "dest").getD "?" ≠ "complete" then (false, "after the retry the destination is not complete")
